@@ -74,6 +74,7 @@ def mixed_evidence(ev, covs, bounded_part, trust, tier=None, units=None, vd=None
     cov["obligations"] = m["obligations"]
     cov["discharged"] = m["discharged"]
     cov["solver_ms"] = m["solver_ms"]
+    cov["backend"] = "Verus 0.2026.09.13 / Z3 for the obligations; the native harness (compiled real code) for the bounded part"
     cov["units"] = m["units"]
     cov["verus_checker_cmd"] = "; ".join(c.get("checker_cmd") or "" for c in covs)
     cov["functions_under_contract"] = sorted(set(sum([c.get("functions_under_contract", []) for c in covs], [])))
